@@ -1,5 +1,15 @@
 // driver TU for C11 (partial): wire-format arithmetic of the serialization helper
 #include "babylon/serialization/traits.cpp"
+#include "babylon/serialization/scalar.h"
+#include "babylon/serialization/string.h"
 namespace babylon_vf {
+enum class E64 : uint64_t { A = 1 };
+using ET = ::babylon::SerializeTraits<E64>;
+using ST = ::babylon::SerializeTraits<::std::string>;
 size_t force(uint64_t v) { return ::babylon::SerializationHelper::varint_size(v); }
+size_t force2(E64 e, ::std::string& s, ::google::protobuf::io::CodedOutputStream& os, ::google::protobuf::io::CodedInputStream& is) {
+  ET::serialize(e, os); ET::deserialize(is, e);
+  ST::serialize(s, os); ST::deserialize(is, s);
+  return ET::calculate_serialized_size(e) + ST::calculate_serialized_size(s);
+}
 }
